@@ -785,17 +785,12 @@ def reaction_cases(draw):
 RE_ANY_NUMBER = re.compile(r"(?<![A-Za-z_\d.])[-+]?(?:\d+\.?\d*|\.\d+)(?:[eE][-+]?\d+)?")
 
 
-def shortest_digits(x):
-    """Number of significant digits of the shortest decimal text that reads back as the float x."""
-    d = Decimal(repr(float(x))).as_tuple().digits
-    return len("".join(map(str, d)).strip("0")) or 1
-
-
 def number_shown(text, m):
-    """Is the number m readable in `text`: some numeric token t with |t - m| <= half a unit of t's last printed digit
-    and at least min(3, digits m needs) significant digits (a zero m: a token of value zero)."""
-    need = min(3, shortest_digits(m))
-    M = Fraction(Decimal(repr(m))) if isinstance(m, int) else Fraction(m)
+    """Is the number m readable in `text`: some numeric token t that is correct to the digits it prints (|t - m| <= half
+    a unit of t's last printed digit) and agrees with m to three significant digits (|t - m| <= 5e-3 |m|, which is at
+    least half a unit of m's third digit; printers that trim trailing zeros - numpy's 'array(1.)' for
+    1.000000000000001 - show fewer characters than digits); a zero m: a token of value zero."""
+    M = Fraction(m)
     for tok in RE_ANY_NUMBER.findall(text):
         try:
             t = Decimal(tok)
@@ -805,11 +800,8 @@ def number_shown(text, m):
             if t == 0:
                 return True
             continue
-        tup = t.as_tuple()
-        ndig = len("".join(map(str, tup.digits)).lstrip("0"))
-        if ndig < need:
-            continue
-        if abs(Fraction(t) - M) <= p10(tup.exponent) / 2:
+        diff = abs(Fraction(t) - M)
+        if diff <= p10(t.as_tuple().exponent) / 2 and diff <= abs(M) * Fraction(5, 1000):
             return True
     return False
 
@@ -918,6 +910,6 @@ SUBCHECKS = [
     SubCheck("reaction", check_reaction, strategy=reaction_cases(), quick=900, thorough=30000,
              rule="5 reactions (order 1-3) x float/int/quantity parameter (unit = conc^(1-order)/time in 6x4 spellings; "
                   "also magnitude zero) or an expression parameter (MassAction / unique_keys / Arrhenius inside, with or "
-                  "without units: no exception, parameter text appended, every held number readable to >= 3 digits) "
+                  "without units: no exception, parameter text appended, every held number readable to the digits printed and >= 3 digits) "
                   "x string/latex/unicode/html"),
 ]
